@@ -61,7 +61,12 @@ namespace glm
 		{
 			GLM_STATIC_ASSERT(std::numeric_limits<genType>::is_iec559 || GLM_CONFIG_UNRESTRICTED_FLOAT, "'round' only accept floating-point inputs");
 
-			return x < static_cast<genType>(0) ? static_cast<genType>(int(x - static_cast<genType>(0.5))) : static_cast<genType>(int(x + static_cast<genType>(0.5)));
+			genType const a = x < static_cast<genType>(0) ? -x : x;
+			genType const f = std::floor(a);
+			genType const r = (a - f >= static_cast<genType>(0.5)) ? f + static_cast<genType>(1) : f;
+			if(r == static_cast<genType>(0))
+				return x * static_cast<genType>(0); // keeps the sign of zero
+			return x < static_cast<genType>(0) ? -r : r;
 		}
 #	endif
 
